@@ -90,10 +90,28 @@ def o12_3(tier):
                 return
             g = ctx.dict(guess)
             exc = ctx.raises(lambda: calls.append(("res", ctx.callm(ts, "create_mapping", t0, t1, g))))
-            xs0 = [c0[i][0] for i in e0]
+            # spec of the bounding-box test over the interface end points of both frames
+            def mx(vals):
+                acc = vals[0]
+                for v in vals[1:]:
+                    acc = ctx.ite(v > acc, v, acc)
+                return acc
+
+            def mn(vals):
+                acc = vals[0]
+                for v in vals[1:]:
+                    acc = ctx.ite(v < acc, v, acc)
+                return acc
+            x0, y0 = [c0[i][0] for i in e0], [c0[i][1] for i in e0]
+            x1, y1 = [c1[i][0] for i in e1], [c1[i][1] for i in e1]
+            extent = mx([mx(x0 + x1) - mn(x0 + x1), mx(y0 + y1) - mn(y0 + y1)])
+            dxs, dys = (mx(x1) - mn(x1)) - (mx(x0) - mn(x0)), (mx(y1) - mn(y1)) - (mx(y0) - mn(y0))
+            too_different = dxs * dxs + dys * dys > (0.1 * extent) * (0.1 * extent)
             if exc is not None:
                 ctx.ensure(type(exc).__name__ == "DifferentTissueException", "only DifferentTissueException may be raised")
+                ctx.ensure(too_different, "raised only if the bounding box changes shape by more than 10% of the extent")
                 return
+            ctx.ensure(ctx.Not(too_different), "no exception only if the shape change is within 10% of the extent")
             res = [c for c in calls if isinstance(c, tuple)][0][1]
             keys = ctx.keys(res)
             ctx.ensure(sorted(keys) == sorted(set(e0) | set(k for k, _ in guess)), "keys: the interface end points of the earlier frame plus the user's keys")
